@@ -69,6 +69,7 @@ func runC18(b *Batch) {
 			c18PanickingBuilder(b, i)
 		default:
 			c18Failover(b, i)
+			collectGarbage(i)
 		}
 	}
 }
@@ -267,6 +268,7 @@ func c18Failover(b *Batch, idx int) {
 	c.Collide = false
 	c.Cfg.Observe = rng.Intn(2) == 0
 	x := c.run()
+	defer x.run.release()
 	b.R.Eval()
 	if x.outcome != "" {
 		if x.outcome == "inconclusive" {
